@@ -254,7 +254,25 @@ func (f *Frame) inStack(fn *ssa.Function) bool {
 
 func (f *Frame) callStatic(callee *ssa.Function, bindings []Val, args []Val, pc string, st *State, ins ssa.Value) (Val, string) {
 	if rc := f.root().con; rc != nil && !f.dry && (len(rc.Hints["call:"+callee.Name()]) > 0 || len(rc.Hints["call:"+callee.Name()+".after"]) > 0) {
-		// hints anchored at calls (also inside inlined callees; names resolve in the frame of the call)
+		// hints anchored at calls (also inside inlined callees; names resolve in the frame of the call);
+		// the arguments are visible as arg0, arg1, ... (receiver first)
+		for i, a := range args {
+			av := a
+			if av.Loc != nil && (av.Loc.Kind == LocRef || av.Loc.Kind == LocArray) {
+				av = Val{T: f.ptrTerm(av), Typ: av.Typ}
+			}
+			if av.Loc == nil {
+				if i < len(callee.Params) {
+					av.Typ = callee.Params[i].Type()
+				}
+				f.spec[fmt.Sprintf("arg%d", i)] = av
+			}
+		}
+		defer func() {
+			for i := range args {
+				delete(f.spec, fmt.Sprintf("arg%d", i))
+			}
+		}()
 		for _, h := range rc.Hints["call:"+callee.Name()] {
 			f.applyHintCon(rc, h, pc, st, "call:"+callee.Name())
 		}
@@ -524,7 +542,7 @@ func (f *Frame) callContract(callee *ssa.Function, con *Contract, args []Val, pc
 	_, anything := modRefs["*"]
 	if anything {
 		st.ptrCells = nil
-	st.fnCells = nil
+		st.fnCells = nil
 		st.fnCells = nil
 	}
 	var touched []string
@@ -691,7 +709,7 @@ func (f *Frame) bindGhosts(con *Contract, env *Env, pre bool) {
 		switch kind {
 		case "let":
 			l := con.Lets[i]
-			lv := env.eval(l.E)
+			lv := env.pinContent(env.eval(l.E)) // lets denote entry-state values, including slice contents
 			if len(lv.T) > 40 {
 				lv.T = f.vc.define("let "+l.Name, lv.sort(f.vc), lv.T)
 			}
